@@ -365,7 +365,15 @@ ITEMS = location_types() + budget_types() + error_types() + [
              dict(after='let location = location_from_span(&span);', text='if self.budget is Some { lemma_budget_room(self.budget.unwrap()); }'),
              dict(after='}, _ => {} } }, _ => {} } }', label='budget_after_observe', text='''
                  if self.budget is Some { let b = self.budget.unwrap(); assert(within(b.abs(), b.budget, b.per_doc())); assert(budget_ok(b)); }'''),
-             # scalar arm
+             # scalar arm: the delivered event is the raw scalar (text, anchor id, and style)
+             dict(after='Event::Scalar(val, mut style, anchor_id, tag) => {', ghost=True, text='let ghost val0 = val; let ghost style0 = style;'),
+             dict(before='self.record(&ev, false, false);', nth=1, label='C02:scalar_delivered_as_parsed_up_to_the_documented_special_case', props=['C02', 'C06'],
+                  text='''assert(match ev { Ev::Scalar { value, style: st, anchor, location: l, .. } =>
+                        value == val0 && anchor == anchor_id && l == location
+                        && (st == style0 || (val0@.len() == 0 && anchor_id != 0 && (style0 is SingleQuoted || style0 is DoubleQuoted) && st is Plain)),
+                      _ => false });'''),
+             dict(before='self.record(&ev, false, false);', nth=1, label='C02:attaching_an_anchor_never_changes_the_scalar_style', props=['C02', 'C06'],
+                  text='assert(match ev { Ev::Scalar { style: st, .. } => st == style0, _ => false });'),
              dict(before='self.last_location = location;', nth=1, text='''
                  assert forall|a: int, b: int| 0 <= a <= b < self.rec_stack@.len() implies
                      (#[trigger] self.rec_stack@[a]).depth >= (#[trigger] self.rec_stack@[b]).depth by { assert(f0[a].depth >= f0[b].depth); }
@@ -392,6 +400,15 @@ ITEMS = location_types() + budget_types() + error_types() + [
                  assert forall|a: int, b: int| 0 <= a <= b < f2.len() implies (#[trigger] f2[a]).depth >= (#[trigger] f2[b]).depth by { assert(f0[a].depth >= f0[b].depth); }
                  lemma_frames_all_pushed(f0, f2, ev);'''),
              dict(before='self.last_location = location;', nth=5, text='lemma_frames_remaining(f2, self.rec_stack@);'),
+             # document boundaries: per-document state is cleared at EVERY document start and end (C11)
+             dict(before='self.last_location = location;', nth=7, label='C11:document_start_clears_per_document_state', props=['C11', 'C02'],
+                  text='''assert(self.inject@.len() == 0 && self.rec_stack@.len() == 0 && self.total_replayed_events == 0 && !self.seen_doc_end
+                        && (forall|j: int| 0 <= j < self.anchors@.len() ==> (#[trigger] self.anchors@[j]) is None)
+                        && (forall|j: int| 0 <= j < self.per_anchor_expansions@.len() ==> (#[trigger] self.per_anchor_expansions@[j]) == 0));'''),
+             dict(before='self.last_location = location;', nth=8, label='C11:document_end_clears_per_document_state', props=['C11', 'C02'],
+                  text='''assert(self.inject@.len() == 0 && self.rec_stack@.len() == 0 && self.total_replayed_events == 0 && self.seen_doc_end
+                        && (forall|j: int| 0 <= j < self.anchors@.len() ==> (#[trigger] self.anchors@[j]) is None)
+                        && (forall|j: int| 0 <= j < self.per_anchor_expansions@.len() ==> (#[trigger] self.per_anchor_expansions@[j]) == 0));'''),
              # alias arm: placeholder scalar for a recursive anchor in progress
              dict(before='self.last_location = location;', nth=6, text='''
                  assert forall|a: int, b: int| 0 <= a <= b < self.rec_stack@.len() implies
